@@ -156,6 +156,42 @@ theorem emit_deframe (tag k : Nat) (hdr body rest : Bytes)
     ∃ h, deframe (emitPartial tag k hdr body ++ rest) = .ok (h, hdr ++ body, rest) ∧ h.tag = tag :=
   deframe_emitPartial tag k hdr body rest hallow hk9 hk30 hh hb
 
+/-! ## packet streams: where a packet ends depends on its framing alone -/
+
+/-- a fixed-length framing in any admissible length form is a framing in the sense of `Framed` -/
+theorem framed_fixed (newFormat : Bool) (tag form : Nat)
+    (ht : if newFormat then tag < 64 else tag < 16) (body s : Bytes)
+    (hs : frameFixedAs newFormat tag form body = some s) :
+    Framed { newFormat := newFormat, tag := tag, len := .fixed body.length } body s :=
+  fun rest => deframe_frameFixedAs newFormat tag form ht body s rest hs
+
+/-- … and so is every legal partial-body framing -/
+theorem framed_partial (tag k : Nat) (ks : List Nat) (body s : Bytes)
+    (hs : framePartial tag (k :: ks) body = some s)
+    (hallow : partialAllowed tag = true) (hfirst : 9 ≤ k)
+    (hk : ∀ x ∈ k :: ks, x ≤ 30) (hb : body.length < 4294967296) :
+    Framed { newFormat := true, tag := tag, len := .part (2 ^ k) } body s :=
+  fun rest => deframe_partial tag k ks body s rest hs hallow hfirst hk hb
+
+/-- **stream split**: a concatenation of any number of framed packets — whatever their tags and
+whatever their bodies contain, so in particular packets whose type or content the library refuses —
+is split into exactly those packets: nothing of a body is ever taken for a header -/
+theorem stream_split (ps : List (Hdr × Bytes × Bytes))
+    (hall : ∀ p ∈ ps, Framed p.1 p.2.1 p.2.2) :
+    deframeAll (ps.length + 1) (ps.map (·.2.2)).flatten = (ps.map (fun p => (p.1, p.2.1)), none) := by
+  have := deframeAll_framed_append ps 1 [] hall
+  simpa [deframeAll] using this
+
+/-- … and when something that cannot be read as a packet follows them, the packets in front of it
+are still delivered whole and the stream ends with an error, not with a clean end -/
+theorem stream_error_after_packets (ps : List (Hdr × Bytes × Bytes))
+    (hall : ∀ p ∈ ps, Framed p.1 p.2.1 p.2.2) (x : Byte) (t : Bytes) (e : FrErr)
+    (ht : deframe (x :: t) = .error e) :
+    deframeAll (ps.length + 1) ((ps.map (·.2.2)).flatten ++ x :: t) =
+      (ps.map (fun p => (p.1, p.2.1)), some e) := by
+  have := deframeAll_framed_append ps 1 (x :: t) hall
+  simpa [deframeAll, ht] using this
+
 /-! ## non-vacuity -/
 
 example : frameFixedAs true 2 5 [9, 9] = some [194, 255, 0, 0, 0, 2, 9, 9] := by decide
@@ -165,5 +201,9 @@ example : decodeNewLen (encodeNewLen 8383 ++ [7]) = some (Len.fixed 8383, [7]) :
   newlen_roundtrip 8383 (by decide) [7]
 example : encodeNewLen 191 = [191] ∧ encodeNewLen 192 = [192, 0] ∧ encodeNewLen 8383 = [223, 255] ∧
     encodeNewLen 8384 = [255, 0, 0, 32, 192] := by decide
+example : deframeAll 4 [0xCA, 3, 80, 71, 80, 0xFF, 2, 0xCD, 0xCD, 0xCD, 4, 108, 97, 115, 116] =
+    ([({ newFormat := true, tag := 10, len := .fixed 3 }, [80, 71, 80]),
+      ({ newFormat := true, tag := 63, len := .fixed 2 }, [0xCD, 0xCD]),
+      ({ newFormat := true, tag := 13, len := .fixed 4 }, [108, 97, 115, 116])], none) := by decide
 
 end Rpgp.C17
